@@ -29,6 +29,9 @@ def impls_present(ctx):
     return feats
 
 
+ANCHOR_METHODS = ("::read", "::read_buf", "::write", "::handshake", "::new", "::verify_version")
+
+
 def body(ctx, rep, rule, impl, which):
     name = IMPLS[impl][which]
     b = ctx.mir.body(name)
@@ -36,7 +39,16 @@ def body(ctx, rep, rule, impl, which):
         rep.fail(rule, "%s:%s:found" % (impl, which), "function %s not found (anchor lost)" % name)
         return None
     rep.fn(name)
-    return b
+    prefix = IMPLS[impl]["framed"] + "::"
+
+    def want(d):
+        # private (non-anchor, non-async) helper methods of the same Framed impl are analysed in place
+        return d.startswith(prefix) and not d.endswith(ANCHOR_METHODS) and "{closure" not in d
+    from mirq import inline_calls
+    ib = inline_calls(b, want)
+    if ib is not b:
+        rep.notes.append("%s: private helper(s) of %s inlined for path analysis" % (rule, name))
+    return ib
 
 
 def call_sites(b, pattern):
